@@ -878,7 +878,24 @@ fn run_private(case: &EbrCase) -> Report {
                         }
                     }
                     let before = handles[h].as_ref().map(|x| x.verif_state().0);
-                    guards[h][0].reactivate();
+                    match op.k {
+                        EK::Reactivate => guards[h][0].reactivate(),
+                        EK::ReactivateAfter => {
+                            let r = guards[h][0].reactivate_after(|| 5u8);
+                            if r != 5 {
+                                c16_violation("O-pinned/private-result", "reactivate_after did not return the closure's result");
+                            }
+                        }
+                        _ => {
+                            let g = &mut guards[h][0];
+                            let res = std::panic::catch_unwind(std::panic::AssertUnwindSafe(|| {
+                                g.reactivate_after(|| std::panic::resume_unwind(Box::new("generated panic")))
+                            }));
+                            if res.is_ok() {
+                                c16_violation("O-pinned/private-panic-swallowed", "reactivate_after swallowed the closure's panic");
+                            }
+                        }
+                    }
                     let after = handles[h].as_ref().map(|x| x.verif_state().0);
                     if sole {
                         next += 1;
